@@ -49,6 +49,7 @@ Masses == << ROne, RNorm(3, 2), R(2), RNorm(1, 2) >>
 \*  "any"    : everything
 \*  "ortho"  : orthogonal stacks; one joint kind per stack, or slides followed by one hinge   (C08)
 \*  "simple" : single joint per link, anchored at the link origin                            (velocity clause of C01)
+\*  "freeroot": like "any" but every root body is free-floating                              (C04, C05)
 CONSTANT Class
 
 StackOf(len, bits) ==   \* joint kinds of a stack: bit j of `bits` set -> hinge, else slide
@@ -65,7 +66,7 @@ ParentOf(g, i) == IF i = 1 THEN 0 ELSE LET p == PathOf(g, i - 1) IN p[(Gene(g, i
 
 DecodeLink(g, i) ==
   LET parent  == ParentOf(g, i)                                  \* 0 = world, else link i-1 or one of its ancestors
-      free    == parent = 0 /\ Gene(g, i, 2) % 3 = 0
+      free    == parent = 0 /\ (Class = "freeroot" \/ Gene(g, i, 2) % 3 = 0)
       len     == IF Class = "simple" THEN 1 ELSE (Gene(g, i, 3) % 3) + 1
       kinds   == IF Class = "ortho" THEN OrthoPatterns[((Gene(g, i, 3) + 3 * (Gene(g, i, 4) % 3)) % 8) + 1]
                  ELSE StackOf(len, Gene(g, i, 4) % 8)
